@@ -58,6 +58,14 @@ def lexAllO : List String → Option (List (List String))
     | .ok toks, some more => some (if toks.isEmpty then more else toks :: more)
     | _, _ => none
 
+theorem lexLine_opt (l : Line) :
+    (match lexLine l with | .ok t => some t | .error _ => none) =
+      (match lexTokens l.contents.toList with | .ok t => some t | .error _ => none) := by
+  unfold lexLine
+  cases lexTokens l.contents.toList with
+  | ok t => rfl
+  | error e => by_cases he : e = Err.internal "UnicodeDecodeError" <;> simp [he]
+
 theorem lexAll_contents (lines : List Line) :
     (match frontEnd.lexAll lines with | .ok ps => some (ps.map (·.2)) | .error _ => none) =
       lexAllO (lines.map (·.contents)) := by
@@ -65,15 +73,27 @@ theorem lexAll_contents (lines : List Line) :
   | nil => simp [frontEnd.lexAll, lexAllO]
   | cons l rest ih =>
     rw [frontEnd.lexAll.eq_2, List.map_cons, lexAllO, ← ih]
-    cases lexTokens l.contents.toList with
-    | error e => simp
+    have hl := lexLine_opt l
+    cases h1 : lexLine l with
+    | error e =>
+      rw [h1] at hl
+      cases h2 : lexTokens l.contents.toList with
+      | error e2 => simp
+      | ok t => rw [h2] at hl; simp at hl
     | ok toks =>
-      cases frontEnd.lexAll rest with
-      | error e => simp
-      | ok more =>
-        cases toks with
-        | nil => simp
-        | cons t ts => simp
+      rw [h1] at hl
+      cases h2 : lexTokens l.contents.toList with
+      | error e2 => rw [h2] at hl; simp at hl
+      | ok t =>
+        rw [h2] at hl
+        simp only [Option.some.injEq] at hl
+        subst hl
+        cases frontEnd.lexAll rest with
+        | error e => simp
+        | ok more =>
+          cases toks with
+          | nil => simp
+          | cons t ts => simp
 
 /-- items with erased lines, from token lists alone -/
 def parseAllO : List (List String) → Option (List Item)
